@@ -62,6 +62,18 @@ theorem forIn_irange_idx_fold {β : Type} (g : β → Int → β) (suf : Bytes) 
     simp only [bind, Except.bind, pure, Except.pure, List.foldl_cons]
     exact this
 
+/-- the loop `for _, c := range s { acc = g(acc, c) }` over a []byte is the same left fold -/
+theorem forIn_enum_fold {β : Type} (g : β → Int → β) (s : Bytes) (init : β) :
+    forIn (m := M) (enum s) init (fun x acc => pure (ForInStep.yield (g acc x.2)))
+    = .ok (s.foldl (fun a c => g a (c.toNat : Int)) init) := by
+  unfold enum
+  generalize 0 = k
+  induction s generalizing init k with
+  | nil => simp [pure, Except.pure]
+  | cons c rest ih =>
+    simp only [List.zipIdx_cons, List.map_cons, List.forIn_cons, List.foldl_cons, bind, Except.bind, pure, Except.pure]
+    exact ih _ _
+
 end NodisVerif.GoLib
 
 
